@@ -109,6 +109,54 @@ def section_random(ctx, clauses) -> None:
     return SC.CaseEval(ctx, 'store_random_traces', traces)
 
 
+OBSERVERS = [
+    [('noop',)],
+    [('fetch', [(1, '*')], False, True, False)],
+    [('noop',), ('store', ['*'], False, 'add', [4], False)],
+    [('check',), ('fetch', ['*'], True, True, True)],
+]
+
+
+def section_failed_append(ctx, clauses) -> None:
+    """A multi-message APPEND whose 2nd or 3rd message fails (injected OSError from
+    MailboxData.append) is taken back; an observer session looks (NOOP / FETCH / STORE on
+    the new message) after the first message was stored and before the failure — an
+    instrumented await window (harness/store_windows.py); afterwards everybody polls and is
+    compared with the probe.  Monitors only."""
+    from .. import store_windows as W
+    n = reached = 0
+    W.install()
+    try:
+        for nmsgs, fail_at in ((2, 2), (3, 2), (3, 3)):
+            for cmds in OBSERVERS:
+                for asel in (True, False):
+                    trace, mon, hit = SC.run_sync(W.failed_append_trace(
+                        nmsgs, fail_at, cmds, appender_selected=asel))
+                    n += 1
+                    reached += bool(hit)
+                    labels = trace.labels()
+                    for f in mon.failures:
+                        if f['clause'] in clauses:
+                            ctx.failure(f['clause'], '[failed APPEND] ' + f['what'],
+                                        {'failed_append': [nmsgs, fail_at, repr(cmds), asel],
+                                         'labels': SC.labels_repr(labels[:f['step'] + 1]),
+                                         'session': f['session'], 'step': f['step'],
+                                         'generator': 'failed-multiappend-with-observer'},
+                                        {**f['obs'], 'window': f'APPEND of {nmsgs} fails at message '
+                                                               f'{fail_at}, observer: {cmds}'})
+                    for p in trace.problems:
+                        if p['kind'] != 'atomicity':
+                            ctx.disagreement('failed_append:' + p['kind'], p)
+                    for lab, resp, _ in trace.steps:
+                        ctx.count(('failed_append', nmsgs, fail_at, repr(cmds), asel, repr(lab), repr(resp)),
+                                  nontrivial=any(r[0] in ('expunge', 'exists', 'fetch') for r in resp))
+    finally:
+        W.uninstall()
+    ctx.extra['failed_multiappend'] = {'traces': n, 'window_reached': reached}
+    if reached < n:
+        ctx.broken.append(f'failed APPEND: {n - reached} of {n} windows were not reached')
+
+
 RULE = ('a case is one multi-session history: 2-4 connections on the dict backend, 8-25 commands '
         'weighted towards STORE (35% .SILENT), EXPUNGE, MOVE on sequence sets biased to messages '
         'another connection has expunged; every 2-5 steps and at the end every connection issues NOOP '
@@ -126,6 +174,8 @@ def run(ctx) -> None:
     evals = [base.section_witnesses(ctx, clauses, WITNESSES), section_random(ctx, clauses)]
     evals += base.section_exhaustive(ctx, clauses)
     evals += base.section_maildir(ctx, clauses, WITNESSES)
+    base.section_windows(ctx, clauses)
+    section_failed_append(ctx, clauses)
     for ev in evals:
         ev.finish()
 
